@@ -161,7 +161,35 @@ func chunkLen(t *rapid.T, label string, pos int, max int) int {
 	return rapid.IntRange(0, hi).Draw(t, label)
 }
 
-var pngAncillary = []string{"gAMA", "cHRM", "sRGB", "pHYs", "tIME", "tEXt", "zTXt", "iTXt", "bKGD", "sBIT", "prVt", "vpAg"}
+var pngAncillary = []string{"gAMA", "cHRM", "sRGB", "pHYs", "tIME", "tEXt", "zTXt", "iTXt", "bKGD", "sBIT", "prVt", "vpAg",
+	"tRNS", "sPLT", "eXIf", "oFFs", "pCAL", "sCAL", "sTER", "acTL", "cICP", "mDCv", "cLLi", "bKGD", "tRNS"}
+
+// PNGAncillary draws the type of an ancillary chunk that may legally stand between IHDR and PLTE/IDAT in a PNG of
+// the given colour type (so also before or after iCCP), and a fixed data length where the chunk type has one that
+// decoders check (fixed < 0: any length).  tRNS and bKGD must follow PLTE in palette images and tRNS is not allowed
+// with an alpha channel; they are replaced by tEXt there.
+func PNGAncillary(t *rapid.T, label string, colorType byte) (typ string, fixed int) {
+	typ = rapid.SampledFrom(pngAncillary).Draw(t, label)
+	switch typ {
+	case "tRNS":
+		switch colorType {
+		case 0:
+			return typ, 2
+		case 2:
+			return typ, 6
+		}
+		return "tEXt", -1
+	case "bKGD":
+		switch colorType {
+		case 0, 4:
+			return typ, 2
+		case 2, 6:
+			return typ, 6
+		}
+		return "tEXt", -1
+	}
+	return typ, -1
+}
 
 // PNGOpts controls GenPNG.
 type Opts struct {
@@ -196,8 +224,11 @@ func PNG(t *rapid.T, o Opts) File {
 	}
 	pos := 8 + 25
 	addAnc := func(i int) {
-		typ := rapid.SampledFrom(pngAncillary).Draw(t, "anctype")
+		typ, fixed := PNGAncillary(t, "anctype", p.ColorType)
 		ln := chunkLen(t, "anclen", pos, 9000)
+		if fixed >= 0 {
+			ln = fixed
+		}
 		d := make([]byte, ln)
 		for k := range d {
 			d[k] = byte(k*7 + i)
